@@ -138,9 +138,15 @@ def enc_pre(pre):
             'sims': [{'af': ilist(af), 'd': rats(np.asarray(o, dtype=float).ravel())} for af, o in sim_outputs.items()]}
 
 
-def run_lowpass(model_fs, covs, nseq, nsub, thr, Fx, nsim, seed):
-    """Build the low-pass version of a model function that returns model_fs, evaluate it once, and return
-    (precalc components as dadi computed them, result spectrum) - or the exception raised."""
+def _container(x, kind):
+    return list(x) if kind == 'list' else tuple(x) if kind == 'tuple' else np.array(x)
+
+
+def run_lowpass(model_fs, covs, nseq, nsub, thr, Fx, nsim, seed, defaults=False, container='list', calls=1):
+    """Build the low-pass version of a model function that returns model_fs, evaluate it (calls times; the last result
+    counts), and return (precalc components as dadi computed them, result spectrum) - or the exception raised.
+    defaults=True leaves sim_threshold, Fx and nsim to the library's defaults (the caller records 1/100, zeros, 1000);
+    container gives the Python type of the nseq / nsub / Fx arguments."""
     import dadi
     from dadi.LowPass import LowPass as LP
     pop_ids = ['p%d' % k for k in range(len(nseq))]
@@ -160,8 +166,14 @@ def run_lowpass(model_fs, covs, nseq, nsub, thr, Fx, nsim, seed):
     LP.rng = np.random.default_rng(seed)
     LP.low_cov_precalc_GATK_multisample_GATK_multisample = spy
     try:
-        f = LP.make_low_pass_func_GATK_multisample(func, cov_dist, pop_ids, list(nseq), list(nsub), sim_threshold=thr, Fx=Fx, nsim=nsim)
-        out = f([1.0], [999] * len(nseq), None)      # the ns argument is replaced by nseq inside
+        a_nseq, a_nsub = _container(nseq, container), _container(nsub, container)
+        if defaults:
+            f = LP.make_low_pass_func_GATK_multisample(func, cov_dist, pop_ids, a_nseq, a_nsub)
+        else:
+            f = LP.make_low_pass_func_GATK_multisample(func, cov_dist, pop_ids, a_nseq, a_nsub, sim_threshold=thr,
+                                                       Fx=None if Fx is None else _container(Fx, container), nsim=nsim)
+        for _ in range(calls):
+            out = f([1.0], [999] * len(nseq), None)      # the ns argument is replaced by nseq inside
     finally:
         LP.low_cov_precalc_GATK_multisample_GATK_multisample = orig
         LP.rng = old_rng
@@ -412,10 +424,194 @@ def records(ctx):
         finally:
             LP.rng = old
         add('subsample', {'calls': calls, 'nsub': nsub, 'seed': seed}, out, S_SUBS)
+    boundary_records(ctx, add, helper)
     # spread the heavy records over the validation batches
     order = list(range(len(recs)))
     random.Random(ctx.seed).shuffle(order)
     return [recs[j] for j in order]
+
+
+# --------------------------------------------------------------------------
+# the end points and named options of the stated domain, drawn deterministically in every tier
+# --------------------------------------------------------------------------
+def fixed_covs():
+    """Coverage distributions at the edges of 'depths 0..80' (dadi format)."""
+    def mk(p):
+        p = np.array(p, dtype=float)
+        return np.array([np.arange(len(p), dtype=float), p / p.sum()])
+    pois = [np.exp(-3.0 + d * np.log(3.0) - sum(np.log(range(1, d + 1)))) for d in range(81)]
+    return {'point80': mk([0.0] * 80 + [1.0]),             # every individual at the largest depth
+            'poisson80': mk(pois),                          # all depths 0..80 carry mass
+            'uniform80': mk([1.0] * 81),
+            'D1': mk([0.4, 0.6]),                           # shortest possible table: depths 0..1
+            'point1': mk([0.0, 1.0]),                       # every individual has exactly one read (every heterozygote miscalled)
+            'mostly0': mk([0.99, 0.004, 0.003, 0.002, 0.001]),   # almost nobody covered
+            'nozero': mk([0.0, 0.1, 0.2, 0.3, 0.2, 0.1, 0.1])}  # everybody covered
+
+
+def boundary_records(ctx, add, helper):
+    import dadi
+    from dadi import Numerics
+    from dadi.LowPass import LowPass as LP
+    rng = random.Random(ctx.seed + 180)
+    q = ctx.quick
+    covs = fixed_covs()
+    F_TINY, F_NEAR1 = 1e-12, 1.0 - 1e-6
+    # -- helpers at n_sequenced = 2 and 20, n_subsampling = 2 and = n_sequenced, F = 0 / generic / -> 0 / -> 1
+    for name, cov in covs.items():
+        e = enc_cov(cov)
+        helper('cem', {'cov': e, 'nsub': 2, 'F': '0'})
+        helper('cem', {'cov': e, 'nsub': 20, 'F': '0'})
+        helper('nocall', {'cov': e, 'nseq': 2, 'F': '0'})
+        helper('nocall', {'cov': e, 'nseq': 20, 'F': rat(0.5)})
+        for nseq, nsub in ((2, 2), (20, 20), (20, 2)):
+            helper('enough', {'cov': e, 'nseq': nseq, 'nsub': nsub})
+    for name in ('poisson80', 'D1') if q else tuple(covs):
+        e = enc_cov(covs[name])
+        for F in (F_TINY, F_NEAR1):
+            helper('cem', {'cov': e, 'nsub': 20, 'F': rat(F)})
+            helper('nocall', {'cov': e, 'nseq': 20, 'F': rat(F)})
+            helper('nocall', {'cov': e, 'nseq': 2, 'F': rat(F)})
+            helper('cem', {'cov': e, 'nsub': 2, 'F': rat(F)})
+    for nseq, nsub in ((2, 2), (20, 20), (20, 2), (20, 18), (4, 2)):
+        for F in (0.0, 0.5, F_TINY, F_NEAR1):
+            helper('proj_mat', {'nseq': nseq, 'nsub': nsub, 'F': rat(F)})
+    for nseq in (2, 20):
+        for F in (F_TINY, F_NEAR1, 0.5):
+            helper('parts_gt', {'nseq': nseq, 'F': rat(F)})
+            for x in sorted({0, 1, nseq // 2, nseq - 1, nseq}):
+                helper('parts_af', {'nseq': nseq, 'x': x, 'F': rat(F)})
+    for part, k in (([0], 2), ([2], 2), ([1], 2), ([0] * 10, 2), ([2] * 10, 20), ([0, 0, 0, 1, 1, 1, 1, 2, 2, 2], 20), ([0, 0, 0, 1, 1, 1, 1, 2, 2, 2], 2)):
+        helper('proj_inb', {'part': part, 'k': k})
+    # -- the same calls with other argument types / layouts (recorded under the canonical inputs)
+    cov = covs['nozero']
+    e = enc_cov(cov)
+    variants = [('fortran', np.asfortranarray(cov)), ('transposed_view', np.ascontiguousarray(cov.T).T),
+                ('sliced_view', np.concatenate([cov, cov], axis=1)[:, :cov.shape[1]]), ('list_of_arrays', [cov[0].copy(), cov[1].copy()])]
+    for vname, c in variants:
+        add('cem', {'cov': e, 'nsub': 6, 'F': rat(0.25), 'variant': vname},
+            observe(lambda: LP.calling_error_matrix(c, 6, 0.25), lambda r: {'M': rats(np.asarray(r, dtype=float))}), S_CEM)
+        add('nocall', {'cov': e, 'nseq': 8, 'F': '0', 'variant': vname},
+            observe(lambda: LP.probability_of_no_call_1D_GATK_multisample(c, 8, 0), lambda r: {'v': rats(np.asarray(r, dtype=float))}), S_NOCALL)
+        add('enough', {'cov': e, 'nseq': 8, 'nsub': 4, 'variant': vname},
+            observe(lambda: LP.probability_enough_individuals_covered(c, 8, 4), lambda r: {'v': rat(float(r))}), S_ENOUGH)
+    add('cem', {'cov': e, 'nsub': 6, 'F': '0', 'variant': 'Fx_omitted'},
+        observe(lambda: LP.calling_error_matrix(cov, 6), lambda r: {'M': rats(np.asarray(r, dtype=float))}), S_CEM)
+    i64 = np.int64
+    add('parts_af', {'nseq': 8, 'x': 4, 'F': '0', 'variant': 'int_F_numpy_sizes'},
+        observe(lambda: LP.partitions_and_probabilities(i64(8), 'allele_frequency', 0, i64(4)),
+                lambda r: {'parts': [ilist(p_) for p_ in r[0]], 'probs': rats(np.asarray(r[1], dtype=float))}), S_PART)
+    add('parts_af', {'nseq': 8, 'x': 4, 'F': rat(0.5), 'variant': 'numpy_F'},
+        observe(lambda: LP.partitions_and_probabilities(8, 'allele_frequency', np.float64(0.5), 4),
+                lambda r: {'parts': [ilist(p_) for p_ in r[0]], 'probs': rats(np.asarray(r[1], dtype=float))}), S_PART)
+    add('parts_af', {'nseq': 8, 'x': 4, 'F': '0', 'variant': 'Fx_omitted_keyword'},
+        observe(lambda: LP.partitions_and_probabilities(8, 'allele_frequency', allele_frequency=4),
+                lambda r: {'parts': [ilist(p_) for p_ in r[0]], 'probs': rats(np.asarray(r[1], dtype=float))}), S_PART)
+    add('proj_mat', {'nseq': 8, 'nsub': 4, 'F': '0', 'variant': 'int_F_numpy_sizes'},
+        observe(lambda: LP.projection_matrix(i64(8), i64(4), 0), lambda r: {'M': rats(np.asarray(r, dtype=float))}), S_PRJM)
+    add('nocall', {'cov': e, 'nseq': 8, 'F': rat(0.5), 'variant': 'numpy_sizes'},
+        observe(lambda: LP.probability_of_no_call_1D_GATK_multisample(cov, i64(8), np.float64(0.5)), lambda r: {'v': rats(np.asarray(r, dtype=float))}), S_NOCALL)
+    add('enough', {'cov': e, 'nseq': 8, 'nsub': 4, 'variant': 'numpy_sizes'},
+        observe(lambda: LP.probability_enough_individuals_covered(cov, i64(8), i64(4)), lambda r: {'v': rat(float(r))}), S_ENOUGH)
+    for vname, part in (('tuple', (0, 1, 1, 2)), ('array', np.array([0, 1, 1, 2])), ('unsorted', [2, 0, 1, 1])):
+        add('proj_inb', {'part': ilist(part), 'k': 2, 'variant': vname},
+            observe(lambda: LP.projection_inbreeding(part, 2), lambda r: {'v': rats(np.asarray(r, dtype=float))}), S_PRJI)
+    add('part_inb', {'parts': [[0, 1, 1], [0, 0, 2]], 'F': rat(0.3), 'variant': 'tuples'},
+        observe(lambda: LP.part_inbreeding_probability([(0, 1, 1), (0, 0, 2)], 0.3), lambda r: {'probs': rats(np.asarray(r, dtype=float))}), S_PINB)
+
+    # -- the whole correction: every population count x both ends of sim_threshold and the library defaults,
+    #    smallest and largest sizes, no subsampling and strongest subsampling, argument containers, repeated calls
+    def lowpass_case(tag, nseq, nsub, cov_names, thr, Fx, nsim, defaults=False, container='list', calls=1, fortran=False, mask_corners=True, seedk=0):
+        P = len(nseq)
+        cs = [covs[c] for c in cov_names]
+        sh = tuple(n + 1 for n in nseq)
+        data = np.array([rng.uniform(0.1, 10) for _ in range(int(np.prod(sh)))]).reshape(sh)
+        if fortran:
+            data = np.asfortranarray(data)
+        model = dadi.Spectrum(data, mask_corners=mask_corners)
+        Fs = [0.0] * P if Fx is None else list(Fx)
+        seed = ctx.seed + 11000 + seedk
+        rec_thr, rec_nsim = (0.01, 1000) if defaults else (thr, nsim)
+        base = {'covs': [enc_cov(c) for c in cs], 'nseq': list(nseq), 'nsub': list(nsub), 'thr': rat(rec_thr), 'F': [rat(f) for f in Fs],
+                'Fx_given': Fx is not None, 'nsim': rec_nsim, 'seed': seed,
+                'variant': '%s defaults=%s container=%s calls=%d fortran=%s' % (tag, defaults, container, calls, fortran)}
+        try:
+            pre, out = run_lowpass(model, cs, nseq, nsub, thr, Fx, nsim, seed, defaults=defaults, container=container, calls=calls)
+        except Exception as ex:
+            add('apply', dict(base, s=enc(model)), {'raised': type(ex).__name__}, S_APPLY)
+            return
+        epre = enc_pre(pre)
+        add('precalc', base, epre, S_PRE)
+        add('apply', {'s': enc(model), 'nsub': list(nsub), 'nseq': list(nseq), 'thr': rat(rec_thr), 'pre': epre, 'variant': base['variant']}, {'s': enc(out)}, S_APPLY)
+    cases = [
+        # tag, nseq, nsub, covs, thr, Fx, nsim, options
+        ('1pop-min', [2], [2], ['D1'], 1.0, None, 300, {}),
+        ('1pop-min-sim', [2], [2], ['poisson80'], 0.0, [0.0], 300, {'container': 'tuple'}),
+        ('1pop-min-defaults', [2], [2], ['D1'], None, None, None, {'defaults': True}),
+        ('1pop-max-nosub', [20], [20], ['poisson80'], 1.0, [0.5], 300, {'calls': 2}),
+        ('1pop-max-sub2-sim', [20], [2], ['uniform80'], 0.0, None, 300, {'mask_corners': False}),
+        ('1pop-max-defaults', [20], [10], ['mostly0'], None, None, None, {'defaults': True}),
+        ('1pop-point1', [8], [4], ['point1'], 1.0, [F_TINY], 300, {}),
+        ('2pop-analytic', [2, 20], [2, 2], ['nozero', 'poisson80'], 1.0, [0, 0.5], 300, {'container': 'tuple', 'fortran': True}),
+        ('2pop-sim', [6, 4], [4, 4], ['D1', 'nozero'], 0.0, [F_NEAR1, 0.0], 300, {'calls': 2}),
+        ('2pop-defaults', [4, 6], [2, 6], ['poisson80', 'mostly0'], None, None, None, {'defaults': True, 'container': 'array'}),
+        ('3pop-analytic', [6, 4, 2], [4, 4, 2], ['nozero', 'D1', 'poisson80'], 1.0, [0.3, 0.0, F_TINY], 300, {'fortran': True, 'calls': 2}),
+        ('3pop-sim', [4, 2, 4], [2, 2, 4], ['poisson80', 'point1', 'nozero'], 0.0, None, 300, {}),
+        ('3pop-defaults', [2, 2, 2], [2, 2, 2], ['D1', 'D1', 'uniform80'], None, None, None, {'defaults': True, 'container': 'tuple'}),
+        ('2pop-mixed', [8, 6], [6, 2], ['poisson80', 'nozero'], 0.5, (0.2, 0.7), 500, {'container': 'array'}),
+    ]
+    for k, (tag, nseq, nsub, cn, thr, Fx, nsim, opt) in enumerate(cases):
+        lowpass_case(tag, nseq, nsub, cn, thr, Fx, nsim, seedk=k, **opt)
+    # -- deep coverage at the largest depth, analytic regime and library-default threshold, preceded by a low-coverage wrapper
+    deep80 = covs['point80']
+    dcases = [([20], [20], 1.0, None), ([20], [2], 1e-2, [0.0]), ([2], [2], 1.0, [0.5]), ([20, 2], [10, 2], 1.0, None),
+              ([4, 4, 4], [2, 4, 2], 1e-2, None), ([6, 2, 4], [6, 2, 2], 1.0, [0.0, 0.9, F_TINY])]
+    for k, (nseq, nsub, thr, Fx) in enumerate(dcases):
+        P = len(nseq)
+        sh = tuple(n + 1 for n in nseq)
+        model = dadi.Spectrum(np.array([rng.uniform(0.1, 10) for _ in range(int(np.prod(sh)))]).reshape(sh), mask_corners=(k % 2 == 0))
+        Fs = [0.0] * P if Fx is None else Fx
+        low = [covs['mostly0' if j % 2 else 'D1'] for j in range(P)]
+        seed = ctx.seed + 12000 + k
+        base = {'covs': [enc_cov(deep80)] * P, 'pre_covs': [enc_cov(c) for c in low], 'nseq': nseq, 'nsub': nsub, 'thr': rat(thr),
+                'F': [rat(f) for f in Fs], 'Fx_given': Fx is not None, 'nsim': 50, 'seed': seed, 's': enc(model)}
+        try:
+            pre, out = low_then_deep(model, low, [deep80] * P, nseq, nsub, thr, Fx, 50, seed)
+            add('deep', base, {'s': enc(out)}, S_APPLY)
+        except Exception as ex:
+            add('deep', base, {'raised': type(ex).__name__}, S_APPLY)
+    # -- deep coverage, simulated regime: largest size, a population that is not subsampled, three populations
+    scases = [([20], [10], None), ([4, 4], [4, 2], [0.0, 0.4]), ([4, 4, 4], [2, 4, 2], None)] if q else \
+             [([20], [10], None), ([20], [2], [0.3]), ([4, 4], [4, 2], [0.0, 0.4]), ([4, 4, 4], [2, 4, 2], None), ([4, 2, 6], [2, 2, 4], [0.5, 0.0, 0.1])]
+    for k, (nseq, nsub, Fx) in enumerate(scases):
+        P = len(nseq)
+        sh = tuple(n + 1 for n in nseq)
+        model = dadi.Spectrum(np.array([rng.uniform(0.5, 10) for _ in range(int(np.prod(sh)))]).reshape(sh))
+        Fs = [0.0] * P if Fx is None else Fx
+        low = [covs['D1']] * P
+        seed = ctx.seed + 13000 + k
+        base = {'covs': [enc_cov(deep80)] * P, 'pre_covs': [enc_cov(c) for c in low], 'nseq': nseq, 'nsub': nsub, 'thr': '0',
+                'F': [rat(f) for f in Fs], 'Fx_given': Fx is not None, 'nsim': 2000, 'seed': seed, 's': enc(model)}
+        try:
+            pre, out = low_then_deep(model, low, [deep80] * P, nseq, nsub, 0.0, Fx, 2000, seed)
+            add('deep_sim', base, {'s': enc(out)}, S_APPLY)
+        except Exception as ex:
+            add('deep_sim', base, {'raised': type(ex).__name__}, S_APPLY)
+    # -- the simulator: no subsampling / subsampling, monomorphic and fixed sites, smallest and largest sizes
+    for k, (nseq, nsub, af, cn, Fs) in enumerate([([2], [2], [1], ['D1'], [0.0]), ([20], [20], [10], ['poisson80'], [0.5]), ([20], [2], [20], ['nozero'], [0.0]),
+                                                   ([4, 6], [4, 2], [0, 0], ['poisson80', 'nozero'], [0.0, F_NEAR1]),
+                                                   ([2, 4, 2], [2, 2, 2], [1, 4, 0], ['point80', 'D1', 'nozero'], [F_TINY, 0.0, 0.3])]):
+        seed = ctx.seed + 14000 + k
+        np.random.seed(seed % (2 ** 32))
+        old = LP.rng
+        LP.rng = np.random.default_rng(seed)
+        try:
+            out = observe(lambda: LP.simulate_GATK_multisample_calling({'p%d' % j: covs[c] for j, c in enumerate(cn)}, af, nseq, nsub, 500, Fs),
+                          lambda r: {'sh': ilist(np.shape(r)), 'd': rats(np.asarray(r, dtype=float).ravel())})
+        finally:
+            LP.rng = old
+        add('sim_calling', {'covs': [enc_cov(covs[c]) for c in cn], 'af': af, 'nseq': nseq, 'nsub': nsub, 'F': [rat(f) for f in Fs], 'nsim': 500, 'seed': seed},
+            out, S_SIMC)
 
 
 # --------------------------------------------------------------------------
